@@ -1,6 +1,6 @@
 //! Shim with the name of `notify`: the watcher registers zinoma's real callback with the
 //! simulator's virtual inotify (DESIGN.md §3.5). Only what zinoma's callback can observe is
-//! modelled: the path list of each event, and `watch()` failing on a missing path with
+//! modelled: the kind and path list of each event (inotify back end of notify 6.1.1), and `watch()` failing on a missing path with
 //! `ErrorKind::Io(NotFound)` exactly like notify 6.1.1's inotify back end.
 
 use std::path::{Path, PathBuf};
@@ -93,12 +93,41 @@ pub enum RecursiveMode {
 }
 
 pub mod event {
-    /// zinoma never looks at the kind; a single opaque variant keeps the shim honest about
-    /// not modelling it.
+    //! Event kinds as in notify 6.1.1 (the subset of the type structure a callback can match on).
+    #[derive(Clone, Copy, Debug, PartialEq, Eq, Hash)]
+    pub enum AccessMode { Any, Execute, Read, Write, Other }
+    #[derive(Clone, Copy, Debug, PartialEq, Eq, Hash)]
+    pub enum AccessKind { Any, Read, Open(AccessMode), Close(AccessMode), Other }
+    #[derive(Clone, Copy, Debug, PartialEq, Eq, Hash)]
+    pub enum CreateKind { Any, File, Folder, Other }
+    #[derive(Clone, Copy, Debug, PartialEq, Eq, Hash)]
+    pub enum DataChange { Any, Size, Content, Other }
+    #[derive(Clone, Copy, Debug, PartialEq, Eq, Hash)]
+    pub enum MetadataKind { Any, AccessTime, WriteTime, Permissions, Ownership, Extended, Other }
+    #[derive(Clone, Copy, Debug, PartialEq, Eq, Hash)]
+    pub enum RenameMode { Any, To, From, Both, Other }
+    #[derive(Clone, Copy, Debug, PartialEq, Eq, Hash)]
+    pub enum ModifyKind { Any, Data(DataChange), Metadata(MetadataKind), Name(RenameMode), Other }
+    #[derive(Clone, Copy, Debug, PartialEq, Eq, Hash)]
+    pub enum RemoveKind { Any, File, Folder, Other }
+
     #[derive(Clone, Copy, Debug, PartialEq, Eq, Hash, Default)]
     pub enum EventKind {
         #[default]
         Any,
+        Access(AccessKind),
+        Create(CreateKind),
+        Modify(ModifyKind),
+        Remove(RemoveKind),
+        Other,
+    }
+
+    impl EventKind {
+        pub fn is_access(&self) -> bool { matches!(self, EventKind::Access(_)) }
+        pub fn is_create(&self) -> bool { matches!(self, EventKind::Create(_)) }
+        pub fn is_modify(&self) -> bool { matches!(self, EventKind::Modify(_)) }
+        pub fn is_remove(&self) -> bool { matches!(self, EventKind::Remove(_)) }
+        pub fn is_other(&self) -> bool { matches!(self, EventKind::Other) }
     }
 }
 pub use event::EventKind;
@@ -107,6 +136,30 @@ pub use event::EventKind;
 pub struct Event {
     pub kind: EventKind,
     pub paths: Vec<PathBuf>,
+}
+
+impl Event {
+    pub fn new(kind: EventKind) -> Self {
+        Event { kind, paths: vec![] }
+    }
+    pub fn need_rescan(&self) -> bool {
+        false
+    }
+}
+
+fn kind_of(code: u8) -> EventKind {
+    use event::*;
+    match code {
+        simrt::vfs::K_CREATE => EventKind::Create(CreateKind::File),
+        simrt::vfs::K_MODIFY_DATA => EventKind::Modify(ModifyKind::Data(DataChange::Any)),
+        simrt::vfs::K_CLOSE_WRITE => EventKind::Access(AccessKind::Close(AccessMode::Write)),
+        simrt::vfs::K_METADATA => EventKind::Modify(ModifyKind::Metadata(MetadataKind::Any)),
+        simrt::vfs::K_REMOVE => EventKind::Remove(RemoveKind::File),
+        simrt::vfs::K_RENAME_FROM => EventKind::Modify(ModifyKind::Name(RenameMode::From)),
+        simrt::vfs::K_RENAME_TO => EventKind::Modify(ModifyKind::Name(RenameMode::To)),
+        simrt::vfs::K_RENAME_BOTH => EventKind::Modify(ModifyKind::Name(RenameMode::Both)),
+        _ => EventKind::Any,
+    }
 }
 
 pub trait EventHandler: Send + 'static {
@@ -139,8 +192,8 @@ pub type RecommendedWatcher = INotifyWatcher;
 
 impl Watcher for INotifyWatcher {
     fn new<F: EventHandler>(mut event_handler: F, _config: Config) -> Result<Self> {
-        let id = simrt::vfs::new_watcher(Box::new(move |paths| {
-            event_handler.handle_event(Ok(Event { kind: EventKind::Any, paths }))
+        let id = simrt::vfs::new_watcher(Box::new(move |kind, paths| {
+            event_handler.handle_event(Ok(Event { kind: kind_of(kind), paths }))
         }));
         Ok(INotifyWatcher { id })
     }
